@@ -111,6 +111,11 @@ def w_eye(ctx, rng, i):
     ctx.bin("swing2_decade", int(np.floor(np.log10(swing * alpha))))
 
 
+def FORM_TWINS():
+    import opticomlib.devices as dv
+    return [(dv, ["GET_EYE"])]
+
+
 WORKLOADS = [
     Workload("eye", w_eye, 600, 12000, budget=120),
 ]
